@@ -95,12 +95,13 @@ def obs_call(case):
 
 def import_without_model():
     """Fresh interpreter whose shipped model file is 'absent' at import time."""
-    code = ("import sys, json, os; sys.path.insert(0, '/repo'); import warnings; warnings.simplefilter('ignore');"
+    code = ("import sys, json, os; sys.path.insert(0, '%s'); import warnings; warnings.simplefilter('ignore');"
             "import logging; logging.disable(logging.CRITICAL);"
             "_ex = os.path.exists; os.path.exists = lambda p: False if str(p).endswith('model.pbz') else _ex(p);"
             "import ctparse; m = sys.modules['ctparse.ctparse']; from datetime import datetime;"
             "r = m.ctparse('tomorrow 8pm', datetime(2018,3,7,12,43), timeout=0); r2 = m.ctparse('xyzzy', datetime(2018,3,7,12,43));"
             "print(json.dumps({'scorer': type(m._DEFAULT_SCORER).__name__, 'res': str(r.resolution), 's1': str(r), 's2': str(r2)}))")
+    code = code % qa.REPO
     p = subprocess.run(["/venv/bin/python", "-c", code], stdout=subprocess.PIPE, stderr=subprocess.PIPE, text=True, timeout=120)
     return p
 
